@@ -380,8 +380,14 @@ def jobs(tier):
         comps = c02.compositions(3, [2, 3])[::3]
     for c in comps:
         for n_ids in ([2] if q else [1, 2, 3]):
+            # (heterogeneous dimensions fork per individual and draw: with 3
+            # individuals the path bound is raised)
+            n_het = sum(u['n_dim'] for u in c if u['kind'] == 'hetero')
+            if n_ids >= 3 and n_het >= 2:
+                continue     # 3^(2 draws x n_het) index choices: over the bound
+            Fh = F if n_ids < 3 or not n_het else dict(F, max_paths=3000)
             out.append(('init_hier', 'case_init_hier',
-                        dict(units=c, n_ids=n_ids), F))
+                        dict(units=c, n_ids=n_ids), Fh))
             if len(c) == 1:
                 out.append(('init_hier', 'case_init_hier',
                             dict(units=c, n_ids=n_ids, bare=True), F))
@@ -428,7 +434,8 @@ BOUNDS = dict(
           'hierarchical compositions, plus 3 posteriors with unsorted custom '
           'individual labels and one with 11 default-labelled individuals',
     thorough='a third of the compositions of <= 3 sub-models with dimension '
-             '2-3, 1-3 individuals, all covariate variants, 3 draws',
+             '2-3, 1-3 individuals (3 individuals with at most one '
+             'heterogeneous dimension), all covariate variants, 3 draws',
     outside='the optimisation result table (needs a pints optimiser run on '
             'floats and only zips four lists); running the samplers '
             'themselves; arviz conversion')
